@@ -1,8 +1,11 @@
 From Coq Require Extraction.
 From Coq Require Import ExtrOcamlBasic.
-From H3V Require Import Base.Bytes Model.Varint Model.EndToEnd Spec.EndToEndSpec Model.EndToEndRef.
+From H3V Require Import Base.Bytes Model.Varint Model.HttpCrate Model.Headers Model.EndToEnd Spec.EndToEndSpec
+  Model.EndToEndLayers Model.EndToEndRef Model.EndToEndH3.
 Extraction Language OCaml.
 Extraction "C01_model.ml"
   N.add N.mul N.div_eucl
+  h3_request_outcome h3_response_outcome mk_hmap mk_uri
+  uri_scheme_str uri_authority uri_path_and_query pq_as_str
   ref_request_outcome ref_response_outcome
   expected_events norm_request norm_response norm_trailers request_wf.
